@@ -55,6 +55,27 @@ BnMulSmall(w, s) ==
       m6 == w[6] * s + (m5 \div 4096)
   IN <<m1 % 4096, m2 % 4096, m3 % 4096, m4 % 4096, m5 % 4096, m6 % 4096>>
 
+\* p + q and p - q (p >= q)
+BnAdd(pw, qw) ==
+  LET a1 == pw[1] + qw[1]
+      a2 == pw[2] + qw[2] + (a1 \div 4096)
+      a3 == pw[3] + qw[3] + (a2 \div 4096)
+      a4 == pw[4] + qw[4] + (a3 \div 4096)
+      a5 == pw[5] + qw[5] + (a4 \div 4096)
+      a6 == pw[6] + qw[6] + (a5 \div 4096)
+  IN <<a1 % 4096, a2 % 4096, a3 % 4096, a4 % 4096, a5 % 4096, a6 % 4096>>
+BnSub(pw, qw) ==
+  LET d1 == pw[1] + 4096 - qw[1]                         b1 == IF d1 < 4096 THEN 1 ELSE 0
+      d2 == pw[2] + 4096 - qw[2] - b1                    b2 == IF d2 < 4096 THEN 1 ELSE 0
+      d3 == pw[3] + 4096 - qw[3] - b2                    b3 == IF d3 < 4096 THEN 1 ELSE 0
+      d4 == pw[4] + 4096 - qw[4] - b3                    b4 == IF d4 < 4096 THEN 1 ELSE 0
+      d5 == pw[5] + 4096 - qw[5] - b4                    b5 == IF d5 < 4096 THEN 1 ELSE 0
+      d6 == pw[6] + 4096 - qw[6] - b5
+  IN <<d1 % 4096, d2 % 4096, d3 % 4096, d4 % 4096, d5 % 4096, d6 % 4096>>
+Bn2p32 == <<0, 0, 256, 0, 0, 0>>
+Bn2p40 == <<0, 0, 0, 16, 0, 0>>
+Bn2p64 == <<0, 0, 0, 0, 0, 16>>
+
 \* well-formed limb vector as written by the harness
 BnWf(w) == Len(w) = BnLen /\ \A k \in 1..BnLen : w[k] \in 0..4095
 
